@@ -78,6 +78,15 @@ async fn query_nameserver_udp_notimeout(
         return None;
     }
 
+    #[cfg(resolved_verif)]
+    if let Some(reply) = crate::verif::intercept(false, address, serialised_request).await {
+        let mut buf = vec![0u8; 512];
+        let octets = reply?;
+        let n = octets.len().min(buf.len());
+        buf[..n].copy_from_slice(&octets[..n]);
+        return Message::from_octets(&buf).ok();
+    }
+
     let mut buf = vec![0u8; 512];
     let sock = UdpSocket::bind("0.0.0.0:0").await.ok()?;
     sock.connect(address).await.ok()?;
@@ -109,6 +118,11 @@ async fn query_nameserver_tcp_notimeout(
     address: SocketAddr,
     serialised_request: &mut [u8],
 ) -> Option<Message> {
+    #[cfg(resolved_verif)]
+    if let Some(reply) = crate::verif::intercept(true, address, serialised_request).await {
+        return Message::from_octets(&reply?).ok();
+    }
+
     let mut stream = TcpStream::connect(address).await.ok()?;
     send_tcp_bytes(&mut stream, serialised_request).await.ok()?;
     let bytes = read_tcp_bytes(&mut stream).await.ok()?;
